@@ -540,6 +540,9 @@ def sem_tree(rel, env, prefer="r"):
 
     if isinstance(rel, LeafRelation):
         t = env.tables[rel.name]
+        own = {c.qualified_name for c in rel.columns}
+        if set(t.cols) > own:  # the table behind the leaf offers more columns than the relation has
+            t = relmodel.project(t, sorted(own))
         if id(rel) in env.decoys:  # a leaf of the earlier, equal tree: it had no rows
             return Tab([], t.cols, t.ordered)
         return t
@@ -898,7 +901,8 @@ def pytree(rel, leafrows, prefer="r"):
     if isinstance(rel, LeafRelation):
         if id(rel) in CURRENT_DECOYS:
             return []
-        return [dict(r) for r in leafrows[rel.name]]
+        own = {c.qualified_name for c in rel.columns}
+        return [{k: v for k, v in r.items() if k in own} if set(r) > own else dict(r) for r in leafrows[rel.name]]
     if isinstance(rel, MarkerRelation):
         return pytree(rel.target, leafrows, prefer)
     if isinstance(rel, BinaryOperationRelation):
